@@ -77,6 +77,10 @@ func runOneHistory(cfg *RunCfg, rep *Reporter, cov *Cov, idx, steps int) {
 	h.gen = newGenState(r, prof, id)
 	h.cfg = pick(r, prof.Cfgs)
 	h.model = &ref.Model{Cfg: h.cfg}
+	if prop == "C20" && idx%5 == 3 {
+		h.spell = []string{"//", "/./", "/.//"}[idx/5%3]
+		cov.Add("histories_with_unclean_directory_spelling", 1)
+	}
 	defer func() {
 		if h.log != nil {
 			_ = kClose(h.log)
@@ -205,8 +209,17 @@ func (h *Hist) callErr(kind, stage string, err error, fatal bool) bool {
 	return false
 }
 
+// path is the directory as it is spelled for klevdb: a fifth of the C20 histories name their log
+// with a path that filepath.Clean would change ("//" or "/./" before the last element).
+func (h *Hist) path() string {
+	if h.spell == "" {
+		return h.dir
+	}
+	return filepath.Dir(h.dir) + h.spell + filepath.Base(h.dir)
+}
+
 func (h *Hist) open(o OpenOpts, initial bool) bool {
-	l, err := kOpen(h.dir, o)
+	l, err := kOpen(h.path(), o)
 	if err != nil {
 		h.callErr("open", "open", err, true)
 		return false
@@ -1717,7 +1730,7 @@ func (h *Hist) closedC13() {
 	if !allIdx {
 		return
 	}
-	st, err := klevdb.Stat(h.dir, h.opts.K())
+	st, err := klevdb.Stat(h.path(), h.opts.K())
 	if err != nil {
 		h.fail(failf("pkgstat:error:"+errClass(err), "klevdb.Stat(dir) failed: %s", errText(err)))
 		return
@@ -1836,10 +1849,34 @@ func (h *Hist) doBackup(op *Op) {
 			return
 		}
 		err = kBackup(h.log, dst)
+	} else if op.Variant == "method-ro" {
+		// Log.Backup through a read-only handle: the writer is closed around it
+		if e := os.MkdirAll(dst, 0o700); e != nil {
+			return
+		}
+		if cerr := kClose(h.log); cerr != nil {
+			h.log = nil
+			h.callErr("close", "close", cerr, true)
+			return
+		}
+		h.log = nil
+		ro := h.opts
+		ro.Readonly, ro.Create, ro.Eager, ro.Check, ro.Recover = true, false, false, false, false
+		rl, oerr := kOpen(h.path(), ro)
+		if oerr != nil {
+			h.abort("backup-ro-open:" + errClass(oerr))
+			return
+		}
+		err = kBackup(rl, dst)
+		kClose(rl)
+		if !h.open(h.opts, false) {
+			return
+		}
+		h.cov.Add("backups_through_readonly_handle", 1)
 	} else {
 		// package-level Backup works on a closed source as well as an open one; use the closed form
 		// half of the time by closing and reopening around it
-		err = guard(func() error { return klevdb.Backup(h.dir, dst) })
+		err = guard(func() error { return klevdb.Backup(h.path(), dst) })
 	}
 	if err != nil {
 		h.fail(failf("backup:error:"+errClass(err), "Backup(%s) failed: %s", op.Variant, errText(err)))
